@@ -71,6 +71,27 @@ var bindPlaceholdersPool = sync.Pool{New: func() interface{} {
 	return make(map[int]config.ColumnEncryptionSetting, 32)
 }}
 
+// placeholderSettingsLock guards the placeholder settings kept in client sessions. A proxy works on a session with two
+// goroutines: the client side registers settings while it analyses queries, the database side reads them when the
+// database describes the parameters and drops them when a query cycle ends. With pipelined queries both touch
+// the same map at the same time, which is a fatal error of the runtime ("concurrent map writes") for the whole process.
+var placeholderSettingsLock sync.RWMutex
+
+// SetPlaceholderSetting registers the setting of a placeholder in the settings taken from a client session
+func SetPlaceholderSetting(settings map[int]config.ColumnEncryptionSetting, index int, setting config.ColumnEncryptionSetting) {
+	placeholderSettingsLock.Lock()
+	settings[index] = setting
+	placeholderSettingsLock.Unlock()
+}
+
+// GetPlaceholderSetting returns the setting registered for a placeholder in the settings taken from a client session
+func GetPlaceholderSetting(settings map[int]config.ColumnEncryptionSetting, index int) (config.ColumnEncryptionSetting, bool) {
+	placeholderSettingsLock.RLock()
+	setting, ok := settings[index]
+	placeholderSettingsLock.RUnlock()
+	return setting, ok
+}
+
 // PlaceholdersSettingKey represent a key for storing placeholders in session
 const PlaceholdersSettingKey = "bind_encryption_settings"
 
@@ -99,9 +120,12 @@ func DeletePlaceholderSettingsFromClientSession(session decryptor.ClientSession)
 		// do nothing because it's invalid
 		return
 	}
+	placeholderSettingsLock.Lock()
 	for key := range data {
 		delete(data, key)
 	}
-	bindPlaceholdersPool.Put(data)
+	placeholderSettingsLock.Unlock()
+	// the map is not handed back to the pool: the other goroutine of the session may still hold it,
+	// and another session that took it from the pool would share its settings
 	session.DeleteData(PlaceholdersSettingKey)
 }
